@@ -10,7 +10,7 @@ import math
 
 import numpy as np
 
-from harness import common, tlegen
+from harness import common, tlegen, numeric
 
 LEVEL = "proof"
 UNITS = {"m": "U_m", "s": "U_s", "ms": "U_ms", "us": "U_us", "ns": "U_ns"}
@@ -335,6 +335,25 @@ def run(ctx):
         "because int() truncation toward zero and 'rev + signed count' disagree there by the property's own wording",
         "binary64 evaluation of the cubic and of dt/period is sampled, not proved (C11_monotone is over the reals)",
     ]
+    # the continuous orbit-number formula is regenerated from the source (symbolic execution of get_orbit_number)
+    tr_on, defs_on = numeric.regen(ctx, "orbnum")
+    if tr_on is not None:
+        def _impl(name, env):
+            from pyorbital.orbital import Orbital
+            import types as _types
+            o = Orbital.__new__(Orbital)
+            o.tle = _types.SimpleNamespace(orbit=env["rev"], mean_motion_derivative=env["nd"], mean_motion_sec_derivative=env["ndd"])
+            j2000 = np.datetime64("2000-01-01T12:00:00", "ns")
+            an = j2000 + np.timedelta64(int(round(env["d_an"] * 86400e9)), "ns")
+            o.orbit_elements = _types.SimpleNamespace(an_time=an, an_period=np.timedelta64(int(round(env["period"] * 86400e9)), "ns"))
+            t = j2000 + np.timedelta64(int(round(env["d"] * 86400e9)), "ns")
+            return float(o.get_orbit_number(t, tbus_style=(name == "gen_orbit_float_tbus"), as_float=True))
+
+        def _env(rng):
+            d_an = rng.randint(-3000, 9000) + rng.randint(0, 86399) / 86400.0
+            return {"d_an": d_an, "d": d_an + rng.randint(-86400, 5 * 86400) / 86400.0, "period": rng.randint(5200, 13000) / 86400.0,
+                    "rev": float(rng.randint(0, 99999)), "nd": rng.uniform(-1e-3, 1e-3), "ndd": rng.uniform(-1e-5, 1e-5)}
+        numeric.selfcheck(ctx, tr_on, defs_on, ("gen_orbit_float", "gen_orbit_float_tbus"), _env, _impl, n=ctx.n(40, 400), rtol=1e-12, atol=1e-6)
     ctx.build_props("props/C11.v")
     rng = ctx.rng
     # numpy facts the model relies on
